@@ -135,8 +135,7 @@ def run(ctx):
     after = [sum(e["dts"].count("max") + e["dts"].count("other") for e in t["ev"] if e.get("kind") == "stat") - 0
              for a, t in zip(runs, traces) if a.get("terminal_psi") == 1.0 and a.get("adaptive") and a.get("dt_max", 0) >= 1e3 * a.get("dt", 1) and not t.get("skipped")]
     ctx.cov["pinned_at_1_default_step_control"] = {"runs": len(after), "steps_after_warm_up": after}
-    if not after or max(after) < 10 or sum(1 for n in after if n >= 5) < 2:
-        raise core.MachineryFailure(f"C17: step-control clause on terminal_psi = 1 devices not exercised after the window: {after}")
+    step_guard_failed = (not after or max(after) < 10 or sum(1 for n in after if n >= 5) < 2)     # judged after the verdicts (below)
     oh = {t["options_history"]: t["steps_at_dt_max"] for t in traces if t.get("options_history")}
     ctx.cov["options_object_histories"] = {"steps_at_the_dt_max_literal": oh}
     # vacuity guard of the epsilon-form dimension
@@ -206,6 +205,8 @@ def run(ctx):
     if any(f.get("status") == "open" and f["key"].startswith("C17:rounding-seed") for f in ctx.findings) and not reproduced and not ctx.violations:
         raise core.MachineryFailure("open finding C17:rounding-seed no longer reproduces on the real code (no seeded run violates the un-weakened "
                                     "clause ExactlyStationary): update known_findings.json")
+    if step_guard_failed and not ctx.violations:
+        raise core.MachineryFailure(f"C17: step-control clause on terminal_psi = 1 devices not exercised after the window: {after}")
     if (not {"fixed-step-solve", "validate", "loaded-solution"} <= set(oh) or min(oh.values()) < 5) and not ctx.violations:
         raise core.MachineryFailure(f"C17: options-object histories not exercised (steps at the dt_max literal): {oh}")
     if len(unseeded) < 3 and not ctx.violations:
